@@ -53,12 +53,24 @@ def bfs(system, on_problem, max_states=200000, max_transitions=None):
                 on_problem(list(hist), ev, p)
             c2 = system.canon(sut)
             if c2 != c:
+                # the object is about to be thrown away: a complete (state-perturbing) comparison with the model is free here.
+                # It closes the gap that canon is built from the MODEL's contents: an implementation that silently diverged
+                # on this transition is caught now instead of only when some later history happens to read the item.
+                if hasattr(system, 'post_check'):
+                    for p in system.post_check(sut, ev):
+                        on_problem(list(hist), ev, p)
                 if c2 not in seen:
                     if len(seen) >= max_states:
                         st.capped = True
                     else:
                         seen[c2] = hist + (ev,)
                         queue.append(c2)
+                system.dispose(sut)
+                sut = _build(system, hist)
+                st.rebuilds += 1
+            elif getattr(sut, 'must_rebuild', False):
+                # the step's own oracle perturbed implementation-only state (e.g. a full read-back after a refused operation
+                # opened every chunk file): do not continue from a state the history alone would not have produced
                 system.dispose(sut)
                 sut = _build(system, hist)
                 st.rebuilds += 1
@@ -87,6 +99,9 @@ def dfs_all(system, alphabet, depth, on_problem):
                 st.histories += 1
                 for p in probs:
                     on_problem(list(hist), ev, p)
+                if hasattr(system, 'post_check'):
+                    for p in system.post_check(sut, ev):
+                        on_problem(list(hist), ev, p)
                 system.dispose(sut)
                 rec(hist + (ev,))
             else:
